@@ -540,6 +540,9 @@ func TestVerifC10(t *testing.T) {
 	)
 	_ = os.RemoveAll(dir)
 
+	// Part 8: the real file-based GeoIP database.
+	c10gPart(r)
+
 	r.Finish()
 	os.Exit(0)
 }
